@@ -19,6 +19,9 @@ type parser struct {
 	// Current comment node.
 	// Comments are parsed transparently via the normal next peek operations.
 	comments [2]*CommentNode
+
+	// depth of the expression being parsed
+	depth int
 }
 
 // Parse returns a Node, created by parsing the DSL described in the
@@ -99,6 +102,19 @@ func (p *parser) consumeComment() *CommentNode {
 	c := p.comments[p.peekCount]
 	p.comments[p.peekCount] = nil
 	return c
+}
+
+// maxNesting bounds how deep parentheses, unary operators and function arguments may nest:
+// the parser is recursive and must not exhaust the stack on input such as a long run of '('.
+const maxNesting = 1000
+
+// nest enters one level of nesting, the returned function leaves it.
+func (p *parser) nest() func() {
+	p.depth++
+	if p.depth > maxNesting {
+		p.errorf("expression is nested deeper than %d levels", maxNesting)
+	}
+	return func() { p.depth-- }
 }
 
 // errorf formats the error and terminates processing.
@@ -276,6 +292,7 @@ func (p *parser) declaration() Node {
 
 // parse an expression
 func (p *parser) expression() Node {
+	defer p.nest()()
 	switch p.peek().typ {
 	case TokenIdent:
 		p.next()
@@ -506,6 +523,7 @@ func (p *parser) lparameter() (n Node) {
 }
 
 func (p *parser) primary() Node {
+	defer p.nest()()
 	switch tok := p.peek(); {
 	case tok.typ == TokenLParen:
 		p.next()
